@@ -356,8 +356,27 @@ def sp_op(proj, ch, lab, _files):
     npairs = ch.weighted(lab + ".npairs", [(1, 5), (2, 3), (3, 2)])
     pairs = []
     outs = ch.sample(lab + ".outs", out_addrs, npairs)
+    landed = set()
+    steer = ch.chance(lab + ".steer", 0.9)  # keep away from the triggers of the open findings F11-F13 (DESIGN §7.2)
+    stmt_outs = {oconst, "Target." + oattr}
     for j in range(npairs):
-        a = evalname if ev else ch.choice(lab + ".in%d" % j, in_addrs)
+        pool = list(in_addrs)
+        if steer:
+            pool = [x for x in pool if x != "source_fn." + kwarg]
+            if outs[j] in stmt_outs:
+                pool = ["Source." + cattr, "module_attr"]
+        a = evalname if ev else ch.choice(lab + ".in%d" % j, pool)
+        if ev and steer and outs[j] in ("Target.method." + omarg, "target_fn." + oarg, "Later.method." + omarg, "helper." + oarg):
+            free = [x for x in (oconst, "Target." + oattr, "Target.method." + okw, "target_fn." + okw2) if x not in outs]
+            outs[j] = ch.choice(lab + ".evout%d" % j, free)
+        scope = outs[j].rpartition(".")[0]
+        if not ev:
+            # two pairs must not put the same name into the same scope (that request is ill-formed)
+            for alt in [a] + in_addrs:
+                if (scope, alt.rpartition(".")[2]) not in landed:
+                    a = alt
+                    break
+            landed.add((scope, a.rpartition(".")[2]))
         pairs.append([a, outs[j]])
     bad = ch.chance(lab + ".bad", 0.15)
     if bad:
